@@ -116,8 +116,24 @@ func runC08(cx *Ctx, r *Report) {
 				continue
 			}
 			n++
-			why1, ok1 := x.w.pathGuardAny(cf, s, guardAlt{Value: true, Suffix: ".Repeated"}, guardAlt{Value: true, Suffix: ".Repeated}"})
-			why2, ok2 := x.w.pathGuardAny(cf, s, guardAlt{Value: true, Subs: []string{".RepeatedTotal", " < 0)"}}, guardAlt{Value: true, Subs: []string{".BatchCounter", " < ", ".RepeatedTotal"}})
+			// decided in the body or in any function between it and the scheduling call
+			why1, ok1, why2, ok2 := "", false, "", false
+			var site ssa.Instruction = x.ev.Site
+			for f := x.ev.Fr; f != nil; f = f.Parent {
+				w1, o1 := x.w.pathGuardAny(f, site, guardAlt{Value: true, Suffix: ".Repeated"}, guardAlt{Value: true, Suffix: ".Repeated}"})
+				w2, o2 := x.w.pathGuardAny(f, site, guardAlt{Value: true, Subs: []string{".RepeatedTotal", " < 0)"}}, guardAlt{Value: true, Subs: []string{".BatchCounter", " < ", ".RepeatedTotal"}})
+				if o1 && !ok1 {
+					why1, ok1 = w1, true
+				}
+				if o2 && !ok2 {
+					why2, ok2 = w2, true
+				}
+				if f == cf || f.Call == nil {
+					break
+				}
+				site = f.Call
+			}
+			_ = s
 			r.check(ok1 && ok2, "reschedule-condition", "EndBlock", x.ev.Pos(cx), "the next batch is scheduled only when Repeated ∧ (RepeatedTotal < 0 ∨ BatchCounter < RepeatedTotal): "+why1+"; "+why2, fmt.Sprintf("the expired-batch body schedules another batch without Repeated ∧ (RepeatedTotal < 0 ∨ BatchCounter < RepeatedTotal) decided on every path (Repeated: %v, below total: %v): a context would run past its total or a one-shot context would repeat", ok1, ok2))
 		}
 		if n == 0 {
@@ -274,18 +290,9 @@ func (cx *Ctx) c08Callback(r *Report) {
 	var G *ssa.Function
 	if okG {
 		G = callers[0].Caller
-		guard := false
-		for _, df := range dominatingFacts(callers[0].Site.Block()) {
-			if bo, ok := df.Cond.(*ssa.BinOp); ok && df.Holds && bo.Op.String() == "!=" {
-				if c, ok := bo.Y.(*ssa.Const); ok && c.Int64() == 0 && strings.Contains(pureExpr(bo.X, 0), "") {
-					if call, ok := bo.X.(*ssa.Call); ok {
-						if b, ok := call.Common().Value.(*ssa.Builtin); ok && b.Name() == "len" && strings.HasSuffix(pureExpr(call.Common().Args[0], 0), ".ModuleName") {
-							guard = true
-						}
-					}
-				}
-			}
-		}
+		// the guard in any spelling: len(x.ModuleName) != 0, x.ModuleName != "", …
+		fs := newWalker(cx).FactsAt(&Frame{Fn: G}, callers[0].Site)
+		_, guard := hasFact(fs, true, `.ModuleName != "")`)
 		okG = guard
 	}
 	pos := ""
@@ -300,10 +307,12 @@ func (cx *Ctx) c08Callback(r *Report) {
 		abciReach := cx.Reachable(cx.entryFns(cx.entriesOfModule("service", "abci")), nil)
 		nMsg, nAbci := 0, 0
 		for _, c := range gc {
-			if abciReach.Has(c.Caller) && c.Caller.Parent() != nil {
-				nAbci++
-			} else if msgReach.Has(c.Caller) {
+			// the end blocker's site is in the expired-batch body (a closure or a function
+			// it calls), which no message handler reaches
+			if msgReach.Has(c.Caller) {
 				nMsg++
+			} else if abciReach.Has(c.Caller) {
+				nAbci++
 			}
 		}
 		r.check(len(gc) == 2 && nMsg == 1 && nAbci == 1, "completion-sites", "CompleteBatch", cx.P.Pos(G.Pos()), "batch completion is called from exactly two sites: when the last answer arrives and when the batch expires in the end blocker", fmt.Sprintf("batch completion has %d call sites (answer path %d, end blocker %d); expected exactly one of each", len(gc), nMsg, nAbci))
@@ -324,7 +333,7 @@ func (cx *Ctx) c08Callback(r *Report) {
 				}
 			}
 			where := "answer path"
-			if c.Caller.Parent() != nil {
+			if !msgReach.Has(c.Caller) {
 				where = "end blocker"
 			}
 			r.check(ok, "completion-guard", where, cx.P.Pos(c.Site.Pos()), "completion on the "+where+" is guarded (BatchState ≠ COMPLETED / responses == requests)", "completion on the "+where+" is not guarded by the batch-state or response-count test: a batch could complete (and call back) twice")
